@@ -248,6 +248,12 @@ void ScriptPointer::Clear()
     {
         ScriptVariable *variable = list[i];
 
+        if (!variable)
+        {
+            // a variable that was not part of the archive this holder was loaded from
+            continue;
+        }
+
         variable->type = variableType_e::None;
     }
 
@@ -275,6 +281,7 @@ void ScriptPointer::setValue(const ScriptVariable& var)
     {
         for (uintptr_t i = list.NumObjects(); i > 0; i--) {
             ScriptVariable* pVar = list.ObjectAt(i);
+            if (!pVar) continue;
 
             pVar->m_data.pointerValue = var.m_data.pointerValue;
             var.m_data.pointerValue->add(pVar);
@@ -284,6 +291,7 @@ void ScriptPointer::setValue(const ScriptVariable& var)
     {
         for (uintptr_t i = list.NumObjects(); i > 0; i--) {
             ScriptVariable* pVar = list.ObjectAt(i);
+            if (!pVar) continue;
 
             // since they're holding this script pointer, set it to none
             // because otherwise it would call ClearInternal()
@@ -298,7 +306,7 @@ void ScriptPointer::setValue(const ScriptVariable& var)
 
 void ScriptPointer::setValueRef(ScriptVariable& var, const ScriptVariable& ignoredVar)
 {
-    if (list.NumObjects() == 2)
+    if (list.NumObjects() == 2 && list[0] && list[1])
     {
         ScriptVariable* const pVars[] =
         {
@@ -323,6 +331,7 @@ void ScriptPointer::setValueRef(ScriptVariable& var, const ScriptVariable& ignor
         for (uintptr_t i = list.NumObjects(); i > 0; i--)
         {
             ScriptVariable* const pVar = list.ObjectAt(i);
+            if (!pVar) continue;
 
             // since they're holding this script pointer, set it to none
             // because otherwise it would call ClearInternal()
